@@ -4,7 +4,7 @@ import Curtsies.Model.FSArray
 import Curtsies.Properties.C09
 import Curtsies.Proofs.Slice
 namespace Curtsies.FSArray
-open Curtsies
+open Curtsies Curtsies.Splice
 
 /-- What an unset cell shows: an unformatted space (also what `setslice_with_length` pads with). -/
 def blankCell : Cell := (' ', {})
@@ -174,14 +174,110 @@ theorem setslice_reject (f v : FmtStr) (c0 c1 W : Nat) (h01 : c0 ≤ c1) (hv : l
         omega
     exact ⟨_, by rw [he, if_pos this]⟩
 
+theorem padLeft_cells (k : Nat) (o : Operand) : (padLeft k o).cells = List.replicate k blankCell ++ o.cells := by
+  cases o with
+  | str t => simp [padLeft, Operand.cells, plainCells, spaces, blankCell]
+  | fmt f => simp only [padLeft, Operand.cells]; exact cells_spaces_radd f k
+theorem padRight_cells (k : Nat) (o : Operand) : (padRight k o).cells = o.cells ++ List.replicate k blankCell := by
+  cases o with
+  | str t => simp [padRight, Operand.cells, plainCells, spaces, blankCell]
+  | fmt f => simp only [padRight, Operand.cells]; exact cells_spaces_add f k
+theorem cells_rawLen (o : Operand) : o.cells.length = o.rawLen := by
+  cases o with
+  | str t => simp [Operand.cells, plainCells, Operand.rawLen]
+  | fmt f => simp only [Operand.cells, Operand.rawLen]; exact cells_length f
+
+/-- `setslice_with_length` with a str-or-FmtStr value without `ESC [` (`NoEsc`), for `c0 ≤ c1`: the assert fires
+    exactly when the row continues past the region and the value is longer than the region; otherwise the result
+    has cells `setCells` and is accepted iff it is not longer than `W`. -/
+theorem setsliceOp_eq (md : Nat) (f : FmtStr) (v : Operand) (c0 c1 W : Nat) (h01 : c0 ≤ c1) (hv : NoEsc v) :
+    (len f > c1 ∧ v.rawLen > c1 - c0 ∧ setsliceOp md f c0 c1 v W = .error .assertionError) ∨
+    (¬ (len f > c1 ∧ v.rawLen > c1 - c0) ∧ ∃ r, cells r = setCells (cells f) v.cells c0 c1 ∧
+      setsliceOp md f c0 c1 v W = if len r > W then .error .valueError else .ok r) := by
+  have hF : (cells f).length = len f := cells_length f
+  have hV : v.cells.length = v.rawLen := cells_rawLen v
+  unfold setsliceOp
+  simp only []
+  by_cases h1 : len f < c0
+  · have h2 : ¬ len f > c1 := by omega
+    right
+    refine ⟨by omega, splice f (asFmt (padLeft (c0 - len f) v)) c0 (some c1), ?_, ?_⟩
+    · rw [C09_splice _ _ _ _ h01, asFmt_cells, padLeft_cells]
+      simp only [setCells, hF, if_pos h1, if_neg h2]
+    · simp only [if_pos h1, if_neg h2, spliceOp_noEsc md f _ c0 (some c1) (NoEsc_padLeft _ v hv)]
+  · by_cases h2 : len f > c1
+    · by_cases h3 : v.rawLen > c1 - c0
+      · left
+        refine ⟨h2, h3, ?_⟩
+        have : ¬ ((padRight (c1 - c0 - v.rawLen) v).rawLen = c1 - c0 ∧ c0 ≤ c1) := by
+          rw [← cells_rawLen, padRight_cells, List.length_append, List.length_replicate, hV]; omega
+        simp only [if_neg h1, if_pos h2, if_neg this]
+      · right
+        refine ⟨by omega, splice f (asFmt (padRight (c1 - c0 - v.rawLen) v)) c0 (some c1), ?_, ?_⟩
+        · rw [C09_splice _ _ _ _ h01, asFmt_cells, padRight_cells]
+          simp only [setCells, hF, hV, if_neg h1, if_pos h2]
+        · have : ((padRight (c1 - c0 - v.rawLen) v).rawLen = c1 - c0 ∧ c0 ≤ c1) := by
+            rw [← cells_rawLen, padRight_cells, List.length_append, List.length_replicate, hV]; omega
+          simp only [if_neg h1, if_pos h2, if_pos this,
+            spliceOp_noEsc md f _ c0 (some c1) (NoEsc_padRight _ v hv)]
+    · right
+      refine ⟨by omega, splice f (asFmt v) c0 (some c1), ?_, ?_⟩
+      · rw [C09_splice _ _ _ _ h01, asFmt_cells]
+        simp only [setCells, hF, if_neg h1, if_neg h2]
+      · simp only [if_neg h1, if_neg h2, spliceOp_noEsc md f _ c0 (some c1) hv]
+
+/-- Whatever `setslice_with_length` returns is at most `length` long (the final check) - for EVERY value. -/
+theorem setsliceOp_len_le (md : Nat) (f : FmtStr) (v : Operand) (c0 c1 W : Nat) (r : FmtStr)
+    (h : setsliceOp md f c0 c1 v W = .ok r) : len r ≤ W := by
+  unfold setsliceOp at h
+  simp only [] at h
+  split at h
+  · exact absurd h (by simp)
+  · split at h
+    · exact absurd h (by simp)
+    · split at h
+      · exact absurd h (by simp)
+      · have := Except.ok.inj h
+        rw [← this]; omega
+
+theorem setsliceOp_ok (md : Nat) (f : FmtStr) (v : Operand) (c0 c1 W : Nat) (h01 : c0 ≤ c1) (h1W : c1 ≤ W)
+    (hf : len f ≤ W) (hv : v.rawLen ≤ c1 - c0) (hne : NoEsc v) :
+    ∃ r, setsliceOp md f c0 c1 v W = .ok r ∧ cells r = setCells (cells f) v.cells c0 c1 := by
+  rcases setsliceOp_eq md f v c0 c1 W h01 hne with ⟨_, h, _⟩ | ⟨_, r, hc, he⟩
+  · omega
+  · refine ⟨r, ?_, hc⟩
+    have := length_setCells (cells f) v.cells c0 c1 h01 (by rw [cells_rawLen]; exact hv)
+    rw [← hc, cells_length, cells_length] at this
+    rw [he, if_neg (by omega)]
+
+theorem setsliceOp_reject (md : Nat) (f : FmtStr) (v : Operand) (c0 c1 W : Nat) (h01 : c0 ≤ c1)
+    (hv : v.rawLen > c1 - c0) (hne : NoEsc v) (h : len f > c1 ∨ c0 + v.rawLen > W) :
+    ∃ e, setsliceOp md f c0 c1 v W = .error e := by
+  rcases setsliceOp_eq md f v c0 c1 W h01 hne with ⟨_, _, he⟩ | ⟨hn, r, hc, he⟩
+  · exact ⟨_, he⟩
+  · have hlen : len r = (setCells (cells f) v.cells c0 c1).length := by rw [← hc, cells_length]
+    have h2 : ¬ len f > c1 := by omega
+    have hW : c0 + v.rawLen > W := by omega
+    have : len r > W := by
+      rw [hlen]; unfold setCells; simp only [cells_length]
+      rw [if_neg h2]
+      by_cases h1 : len f < c0
+      · rw [if_pos h1]
+        simp only [List.length_append, List.length_take, List.length_replicate, List.length_drop, cells_length,
+          cells_rawLen]
+        omega
+      · rw [if_neg h1]
+        simp only [List.length_append, List.length_take, List.length_drop, cells_length, cells_rawLen]
+        omega
+    exact ⟨_, by rw [he, if_pos this]⟩
 theorem normalizeSlice_nat (L a b : Nat) :
     normalizeSlice L (.slice (some (a : Int)) (some (b : Int))) = .ok (a, b) := by
   unfold normalizeSlice
   simp only []
   grind
 
-theorem setRows_len_le (c0 c1 W : Nat) (rows vals new : List FmtStr)
-    (h : setRows c0 c1 W rows vals = .ok new) : ∀ r ∈ new, len r ≤ W := by
+theorem setRows_len_le (md c0 c1 W : Nat) (rows : List FmtStr) (vals : List Operand) (new : List FmtStr)
+    (h : setRows md c0 c1 W rows vals = .ok new) : ∀ r ∈ new, len r ≤ W := by
   induction rows generalizing vals new with
   | nil => unfold setRows at h; cases Except.ok.inj h; simp
   | cons f rows ih =>
@@ -189,34 +285,56 @@ theorem setRows_len_le (c0 c1 W : Nat) (rows vals new : List FmtStr)
     | nil => unfold setRows at h; cases Except.ok.inj h; simp
     | cons v vals =>
       unfold setRows at h
-      cases h1 : setsliceWithLength f c0 c1 v W with
+      cases h1 : setsliceOp md f c0 c1 v W with
       | error e => rw [h1] at h; simp at h
       | ok r =>
         rw [h1] at h
-        cases h2 : setRows c0 c1 W rows vals with
+        cases h2 : setRows md c0 c1 W rows vals with
         | error e => rw [h2] at h; simp at h
         | ok rest =>
           rw [h2] at h
           cases Except.ok.inj h
           intro x hx
           rcases List.mem_cons.mp hx with rfl | hx
-          · exact setslice_len_le _ _ _ _ _ _ h1
+          · exact setsliceOp_len_le _ _ _ _ _ _ _ h1
           · exact ih vals rest h2 x hx
 
-theorem setRows_ok (c0 c1 W : Nat) (h01 : c0 ≤ c1) (h1W : c1 ≤ W) (rows vals : List FmtStr)
-    (hr : ∀ f ∈ rows, len f ≤ W) (hv : ∀ v ∈ vals, len v ≤ c1 - c0) (hl : rows.length = vals.length) :
-    ∃ new, setRows c0 c1 W rows vals = .ok new ∧ new.length = rows.length ∧
-      ∀ (i : Nat) (f v : FmtStr), rows[i]? = some f → vals[i]? = some v →
-        ∃ r, new[i]? = some r ∧ cells r = setCells (cells f) (cells v) c0 c1 := by
+/-- `setRows` returns one row per (row, value) pair. -/
+theorem setRows_length (md c0 c1 W : Nat) (rows : List FmtStr) (vals : List Operand) (new : List FmtStr)
+    (h : setRows md c0 c1 W rows vals = .ok new) : new.length = min rows.length vals.length := by
+  induction rows generalizing vals new with
+  | nil => unfold setRows at h; cases Except.ok.inj h; simp
+  | cons f rows ih =>
+    cases vals with
+    | nil => unfold setRows at h; cases Except.ok.inj h; simp
+    | cons v vals =>
+      unfold setRows at h
+      cases h1 : setsliceOp md f c0 c1 v W with
+      | error e => rw [h1] at h; simp at h
+      | ok r =>
+        rw [h1] at h
+        cases h2 : setRows md c0 c1 W rows vals with
+        | error e => rw [h2] at h; simp at h
+        | ok rest =>
+          rw [h2] at h
+          cases Except.ok.inj h
+          simp only [List.length_cons, ih vals rest h2]; omega
+
+theorem setRows_ok (md c0 c1 W : Nat) (h01 : c0 ≤ c1) (h1W : c1 ≤ W) (rows : List FmtStr) (vals : List Operand)
+    (hr : ∀ f ∈ rows, len f ≤ W) (hv : ∀ v ∈ vals, v.rawLen ≤ c1 - c0) (hne : ∀ v ∈ vals, NoEsc v)
+    (hl : rows.length = vals.length) :
+    ∃ new, setRows md c0 c1 W rows vals = .ok new ∧ new.length = rows.length ∧
+      ∀ (i : Nat) (f : FmtStr) (v : Operand), rows[i]? = some f → vals[i]? = some v →
+        ∃ r, new[i]? = some r ∧ cells r = setCells (cells f) v.cells c0 c1 := by
   induction rows generalizing vals with
   | nil => exact ⟨[], by unfold setRows; rfl, rfl, by simp⟩
   | cons f rows ih =>
     cases vals with
     | nil => simp at hl
     | cons v vals =>
-      obtain ⟨r, hr1, hr2⟩ := setslice_ok f v c0 c1 W h01 h1W (hr f (by simp)) (hv v (by simp))
+      obtain ⟨r, hr1, hr2⟩ := setsliceOp_ok md f v c0 c1 W h01 h1W (hr f (by simp)) (hv v (by simp)) (hne v (by simp))
       obtain ⟨rest, h1, h2, h3⟩ := ih vals (fun f hf => hr f (by simp [hf])) (fun v h => hv v (by simp [h]))
-        (by simpa using hl)
+        (fun v h => hne v (by simp [h])) (by simpa using hl)
       refine ⟨r :: rest, by unfold setRows; rw [hr1, h1], by simp [h2], ?_⟩
       intro i f' v' hf' hv'
       cases i with
@@ -228,9 +346,10 @@ theorem setRows_ok (c0 c1 W : Nat) (h01 : c0 ≤ c1) (h1W : c1 ≤ W) (rows vals
         simp at hf' hv'
         simpa using h3 i f' v' hf' hv'
 
-theorem setRows_error (c0 c1 W : Nat) (rows vals : List FmtStr) (i : Nat) (f v : FmtStr) (e : PyErr)
-    (hf : rows[i]? = some f) (hv : vals[i]? = some v) (he : setsliceWithLength f c0 c1 v W = .error e) :
-    ∃ e', setRows c0 c1 W rows vals = .error e' := by
+theorem setRows_error (md c0 c1 W : Nat) (rows : List FmtStr) (vals : List Operand) (i : Nat) (f : FmtStr)
+    (v : Operand) (e : PyErr)
+    (hf : rows[i]? = some f) (hv : vals[i]? = some v) (he : setsliceOp md f c0 c1 v W = .error e) :
+    ∃ e', setRows md c0 c1 W rows vals = .error e' := by
   induction rows generalizing vals i with
   | nil => simp at hf
   | cons f0 rows ih =>
@@ -244,11 +363,12 @@ theorem setRows_error (c0 c1 W : Nat) (rows vals : List FmtStr) (i : Nat) (f v :
         rw [he]; exact ⟨_, rfl⟩
       | succ i =>
         simp at hf hv
-        cases h1 : setsliceWithLength f0 c0 c1 v0 W with
+        cases h1 : setsliceOp md f0 c0 c1 v0 W with
         | error e1 => exact ⟨_, rfl⟩
         | ok r =>
           obtain ⟨e', h2⟩ := ih vals i hf hv
           simp only [h2]; exact ⟨_, rfl⟩
+
 /-- What cell (r, c) of the array shows: the stored cell, blank beyond the end of the row and below the last row. -/
 def grid (a : FSArr) (r c : Nat) : Cell :=
   match a.rows[r]? with
@@ -284,12 +404,12 @@ theorem WF_extended (a : FSArr) (h : Nat) (hw : WF a) : WF (a.extended h) := by
 
 /-- Every outcome of `a[r, c] = value`: the array is untouched, or only extended with blank rows (all error
     paths and the empty-region return), or the region rows were replaced by `setRows`' result. -/
-theorem setRegion_cases (a : FSArr) (r c : Index) (value : Block) :
-    (a.setRegion r c value).1 = a ∨
-    (∃ h, (a.setRegion r c value).1 = a.extended h) ∨
-    (∃ (rs cs : Nat × Nat) (new : List FmtStr), (a.setRegion r c value).2 = .ok () ∧
-      setRows cs.1 cs.2 a.numColumns (listSlice (a.extended rs.2).rows rs) (value.items.map (·.2)) = .ok new ∧
-      (a.setRegion r c value).1 =
+theorem setRegion_cases (md : Nat) (a : FSArr) (r c : Index) (value : Block) :
+    (a.setRegion md r c value).1 = a ∨
+    (∃ h, (a.setRegion md r c value).1 = a.extended h) ∨
+    (∃ (rs cs : Nat × Nat) (new : List FmtStr), (a.setRegion md r c value).2 = .ok () ∧
+      setRows md cs.1 cs.2 a.numColumns (listSlice (a.extended rs.2).rows rs) value.items = .ok new ∧
+      (a.setRegion md r c value).1 =
         { a.extended rs.2 with rows := (a.extended rs.2).rows.take rs.1 ++ new ++ (a.extended rs.2).rows.drop rs.2 }) := by
   unfold FSArr.setRegion
   cases h1 : normalizeSlice maxsize r with
@@ -313,10 +433,10 @@ theorem setRegion_cases (a : FSArr) (r c : Index) (value : Block) :
               exact ⟨rs, cs, new, rfl, hnew, rfl⟩
 
 /-- An error leaves the array untouched or only extended. -/
-theorem setRegion_error (a : FSArr) (r c : Index) (value : Block) (e : PyErr)
-    (he : (a.setRegion r c value).2 = .error e) :
-    (a.setRegion r c value).1 = a ∨ ∃ h, (a.setRegion r c value).1 = a.extended h := by
-  rcases setRegion_cases a r c value with h | h | ⟨_, _, _, hok, _, _⟩
+theorem setRegion_error (md : Nat) (a : FSArr) (r c : Index) (value : Block) (e : PyErr)
+    (he : (a.setRegion md r c value).2 = .error e) :
+    (a.setRegion md r c value).1 = a ∨ ∃ h, (a.setRegion md r c value).1 = a.extended h := by
+  rcases setRegion_cases md a r c value with h | h | ⟨_, _, _, hok, _, _⟩
   · exact Or.inl h
   · exact Or.inr h
   · rw [hok] at he; cases he
@@ -381,21 +501,44 @@ theorem getslice_cells (f : FmtStr) (s e : Nat) :
     rw [this]; rfl
   · rw [if_neg h, this]
 
-theorem fsarrayRows_ok (w : Nat) (atts : Atts) (strings : List FmtStr) (n : Nat) (hn : n = strings.length)
-    (hfit : ∀ s ∈ strings, len s ≤ w) :
-    ∃ rows, fsarrayRows w (List.replicate n (blankRow atts)) strings = .ok rows ∧
-      rows.map cells = strings.map cells := by
+/-- What a row of `fsarray(strings, width, *args)` shows: a FmtStr as it is, a plain str with the formatting the
+    extra arguments denote. -/
+def itemCells (atts : Atts) : Operand → List Cell
+  | .str t => t.map fun ch => (ch, atts)
+  | .fmt f => cells f
+
+theorem empty_extend (a : Atts) : ({} : Atts).extend a = a := by
+  cases a; simp [Atts.extend]
+
+theorem fsarrayConvert_noEsc (md : Nat) (atts : Atts) (s : Operand) (h : NoEsc s) :
+    ∃ sf, fsarrayConvert md atts s = .ok sf ∧ cells sf = itemCells atts s ∧ len sf = s.rawLen := by
+  cases s with
+  | fmt f => exact ⟨f, rfl, rfl, rfl⟩
+  | str t =>
+    simp only [NoEsc] at h
+    refine ⟨[⟨t, atts⟩], ?_, ?_, ?_⟩
+    · simp only [fsarrayConvert, fmtstrOf, fromStr_noEsc md t h, copyWithNewAtts, List.map_cons, List.map_nil,
+        empty_extend]
+    · simp [itemCells, Chunk.cells]
+    · simp [Operand.rawLen]
+
+theorem fsarrayRows_ok (md w : Nat) (atts : Atts) (strings : List Operand) (n : Nat) (hn : n = strings.length)
+    (hne : ∀ s ∈ strings, NoEsc s) (hfit : ∀ s ∈ strings, s.rawLen ≤ w) :
+    ∃ rows, fsarrayRows md w atts (List.replicate n (blankRow atts)) strings = .ok rows ∧
+      rows.map cells = strings.map (itemCells atts) := by
   induction strings generalizing n with
   | nil => subst hn; exact ⟨[], by simp [fsarrayRows], rfl⟩
   | cons s strings ih =>
     subst hn
-    obtain ⟨r, hr, hc⟩ := setslice_ok (blankRow atts) s 0 (len s) w (Nat.zero_le _) (hfit s (by simp))
-      (by simp [blankRow]) (by omega)
-    obtain ⟨rest, h1, h2⟩ := ih strings.length rfl (fun s hs => hfit s (by simp [hs]))
+    obtain ⟨sf, hsf, hsc, hsl⟩ := fsarrayConvert_noEsc md atts s (hne s (by simp))
+    obtain ⟨r, hr, hc⟩ := setslice_ok (blankRow atts) sf 0 (len sf) w (Nat.zero_le _)
+      (by rw [hsl]; exact hfit s (by simp)) (by simp [blankRow]) (by omega)
+    obtain ⟨rest, h1, h2⟩ := ih strings.length rfl (fun s hs => hne s (by simp [hs]))
+      (fun s hs => hfit s (by simp [hs]))
     refine ⟨r :: rest, ?_, ?_⟩
-    · simp only [List.length_cons, List.replicate_succ, fsarrayRows, hr, h1]
-    · have : cells r = cells s := by
-        rw [hc]
+    · simp only [List.length_cons, List.replicate_succ, fsarrayRows, hsf, hr, h1]
+    · have : cells r = itemCells atts s := by
+        rw [hc, ← hsc]
         have h0 : cells (blankRow atts) = [] := by simp [blankRow, cells, Chunk.cells]
         simp [setCells, h0]
       simp [this, h2]
